@@ -165,7 +165,7 @@ impl Property for C10 {
     fn budget(&self, tier: Tier) -> Budget {
         match tier {
             Tier::Quick => Budget {
-                seconds: 25,
+                seconds: 60,
                 max_cases: 60_000,
             },
             Tier::Thorough => Budget {
